@@ -5,8 +5,11 @@ the result.  Any VIOLATION / ANALYSIS-ERROR is a false alarm (a rule that depend
   rename   every function-local variable (not parameters, not attributes, not globals) gets the suffix `_rn`
   swapif   every `if c: A else: B` (no elif chain) becomes `if not c: B else: A`
   both     rename + swapif
+  nest     every guard clause `if c: <returns/raises/continues/breaks>` followed by more statements becomes `if c: ... else: <the rest>`
+  ifexp    every `x = A if c else B` / `return A if c else B` statement becomes an if/else statement
+  all      rename + nest + ifexp + swapif
 
-usage: mech_controls.py <rename|swapif|both> [--suite] [--keep <dir>] [--only C07,C12]
+usage: mech_controls.py <rename|swapif|both|nest|ifexp|all> [--suite] [--keep <dir>] [--only C07,C12]
   --suite   also run the repository's test suite on the transformed tree (own network namespace) to validate the transformation
 """
 import ast
@@ -145,11 +148,77 @@ class SwapIf(ast.NodeTransformer):
         return node
 
 
+def _terminates(stmts) -> bool:
+    if not stmts:
+        return False
+    st = stmts[-1]
+    if isinstance(st, (ast.Return, ast.Raise, ast.Continue, ast.Break)):
+        return True
+    if isinstance(st, ast.If):
+        return _terminates(st.body) and _terminates(st.orelse)
+    return False
+
+
+class Nest(ast.NodeTransformer):
+    """`if c: <terminates>` + rest  ->  `if c: <terminates> else: rest` (only for plain ifs without else; the rest must not declare
+    global/nonlocal and must not be empty)."""
+
+    def _block(self, stmts):
+        out = []
+        for i, st in enumerate(stmts):
+            if isinstance(st, ast.If) and not st.orelse and _terminates(st.body) and i + 1 < len(stmts) and \
+                    not any(isinstance(x, (ast.Global, ast.Nonlocal)) for x in stmts[i + 1:]):
+                st.orelse = self._block(stmts[i + 1:])
+                out.append(st)
+                return out
+            out.append(st)
+        return out
+
+    def generic_visit(self, node):
+        super().generic_visit(node)
+        for fld in ('body', 'orelse', 'finalbody'):
+            sub = getattr(node, fld, None)
+            if isinstance(sub, list) and sub and isinstance(sub[0], ast.stmt) and not isinstance(node, ast.ClassDef) and not isinstance(node, ast.Module):
+                setattr(node, fld, self._block(sub))
+        return node
+
+
+class IfExpToIf(ast.NodeTransformer):
+    def _split(self, st, get, make):
+        v = get(st)
+        if isinstance(v, ast.IfExp):
+            a, b = make(v.body), make(v.orelse)
+            return ast.copy_location(ast.If(v.test, [ast.copy_location(a, st)], [ast.copy_location(b, st)]), st)
+        return st
+
+    def visit_Assign(self, st):
+        if len(st.targets) == 1 and isinstance(st.targets[0], (ast.Name, ast.Attribute)) and isinstance(st.value, ast.IfExp):
+            import copy
+            return self._split(st, lambda s_: s_.value, lambda v_: ast.Assign([copy.deepcopy(st.targets[0])], v_, lineno=st.lineno))
+        return st
+
+    def visit_Return(self, st):
+        if isinstance(st.value, ast.IfExp):
+            return self._split(st, lambda s_: s_.value, lambda v_: ast.Return(v_))
+        return st
+
+    def visit_ClassDef(self, node):
+        # class-level assignments stay (an if at class level is fine too, but dataclass field order tools may read the body)
+        for i, st in enumerate(node.body):
+            if isinstance(st, (ast.FunctionDef, ast.AsyncFunctionDef, ast.ClassDef)):
+                node.body[i] = self.visit(st)
+        return node
+
+
 def transform(src: str, mode: str) -> str:
     tree = ast.parse(src)
-    if mode in ('rename', 'both'):
+    if mode in ('rename', 'both', 'all'):
         tree = Renamer().visit(tree)
-    if mode in ('swapif', 'both'):
+    if mode in ('nest', 'all'):
+        tree = Nest().visit(tree)
+    if mode in ('ifexp', 'all'):
+        tree = IfExpToIf().visit(tree)
+    if mode in ('swapif', 'both', 'all'):
         tree = SwapIf().visit(tree)
     ast.fix_missing_locations(tree)
     return ast.unparse(tree) + '\n'
